@@ -83,7 +83,7 @@ func generate(run func(string, bool) string, rng *xvlib.Rng, full bool, out *xvl
 	}
 	generateRW(run, rng, nRW, out)
 	out.Stats.Exhaustive = full
-	out.Stats.Rule = fmt.Sprintf("exhaustive part: account a0 (and a method) with every rule out of %d (threshold: weights {0,1/4,1/2,1} on k0,k1,k2 and on the nested account a1, thresholds {1/4,1/2,1,3/2}; key sets: every family of <= 2 subsets of the 4 members incl. the empty set) x %d rules of the nested account x ALL multisets of size <= k over a %d-URI alphabet (direct keys, keys below the nested account, other account's signer, keys below a key, self nesting, account as last component); thorough: k=4 for every pair; quick: k=2 for every pair, k=4 for %d and k=3 for %d seeded pairs. Plus %d random cases (<=4 accounts, <=5 keys, depth <=4, weights in -1/4..1, <=7 URIs) and %d random verifyRWSetPermission cases. Each multiset is one case; cases are distinct by construction (rule pair x multiset); non-trivial = at least one URI.",
+	out.Stats.Rule = fmt.Sprintf("exhaustive part: account a0 (and a method) with every rule out of %d (threshold: weights {0,1/4,1/2,1} on k0,k1,k2 and on the nested account a1, thresholds {1/4,1/2,1,3/2}; key sets: every family of <= 2 subsets of the 4 members incl. the empty set) x %d rules of the nested account x ALL multisets of size <= k over a %d-URI alphabet (direct keys, keys below the nested account, other account's signer, keys below a key, self nesting, account as last component); thorough: k=4 for every pair; quick: the weight of k2 is restricted to {0,1/2} and pairs of key sets leave out k2, k=2 for every pair, k=4 for %d and k=3 for %d seeded pairs. Plus %d random cases (<=4 accounts, <=5 keys, depth <=4, weights in -1/4..1, <=7 URIs) and %d random verifyRWSetPermission cases. Each multiset is one case; cases are distinct by construction (rule pair x multiset); non-trivial = at least one URI.",
 		len(roots), len(nested), len(strings.Fields(accAlphabet)), pairsK4, pairsK3, nRand, nRW)
 }
 
